@@ -18,6 +18,22 @@ check("C09", "fault_enumeration", "F", "deviation-bounded fault enumeration: eve
       "For every small tree/config the fault-free run fixes the list of operation sites; every site x error kind and every pair is injected and the faulted scan compared with the fault-free one (containment, status rules, fatal-on-request).",
       "Trusted: memfs site numbering; the oracle's mapping from a reached site to the owning extractor. Outside the bound: >2 simultaneous faults, trees >5/6 nodes, gitignore enabled.", "DESIGN §5 C09")
 
+check("C07", "exploration", "E", "bounded exhaustive enumeration: all strings up to a length over raw/token alphabets, all ordered pairs, full comparison matrix + all triples, against algebraic laws and independent reference comparators",
+      "Totality/reflexivity on every string up to the bound, antisymmetry on all ordered pairs of accepted token strings, transitivity and congruence on ALL triples of a generated grammar-valid set via the full comparison matrix, and agreement with independent reference comparators on canonical sub-grammars; two genuine defects found and fixed.",
+      "Trusted: reference comparators (self-tested against published example chains and the repository's own real-tool fixture files at start-up); grammar generators. Outside: strings longer than the bound, characters outside the alphabets, Maven's own non-transitive qualifier families (don't-care).", "DESIGN §5 C07")
+check("C14", "exploration", "E", "complete sweep of every package harvested from every fixture of every built-in extractor (x os-release environments x percent-encoding substitutions) through all conversion laws",
+      "The finite harvest (all fixtures x 8 os-release environments x 18/82 name/version substitutions) is swept completely; every conversion law of the property is checked on every package.",
+      "Trusted: harvest driver (direct Extract on a scratch copy of testdata). Outside: packages no fixture or substitution produces; C02 mutants / C03 generated files are not streamed in.", "DESIGN §5 C14")
+check("C15", "exploration", "E", "exhaustive enumeration of inventories over a PURL pool (every emitted type x 12 shapes) x 5 export formats, round trip through the library's own writers and SBOM extractors",
+      "Every inventory of 0..2 (thorough 0..3) packages over the pool is exported in all 5 formats and re-imported with the library's own extractors; the reference is the in-memory document itself.",
+      "Trusted: third-party packageurl parser used to filter spec-invalid pool entries. Outside: inventories > 3 packages, PURL shapes outside the 12.", "DESIGN §5 C15")
+check("C17", "exploration", "E", "exhaustive enumeration of every symlink graph on <=4 (thorough 5) entries x every depth 0..6 x every entry and operation, on real images, against a reference resolver",
+      "The property's own quantifier (all graphs on up to 5 entries x depths 0..6) is enumerated completely in the thorough tier (4 entries in quick) on the real image views, final and intermediate.",
+      "Trusted: 20-line reference resolver. Don't-care: cycle vs depth error; not-exist vs depth when the (max+1)-th hop finds a missing target.", "DESIGN §5 C17")
+check("C18", "exploration", "E", "exhaustive enumeration of every well-formed event list (<=4/5 events) in every listing permutation x probes x range types x multi-range / multi-entry / versions-list records, against the OSV specification's linear evaluation",
+      "All well-formed ranges up to the bound, in every listing order, are evaluated at every probe version for npm, Maven and PyPI and compared with two independent formulations of the OSV algorithm; one genuine defect found and fixed.",
+      "Trusted: the 3-integer version comparator on the plain ladder; records are passed as structs (no JSON decoding). Don't-care: SEMVER ranges for Maven/PyPI, malformed lists, string-unequal version spellings in versions lists.", "DESIGN §5 C18")
+
 ALL = ["C%02d" % i for i in range(1, 21)]
 for p in ALL:
     if p not in CHECKS:
